@@ -150,7 +150,14 @@ theorem cnf_eval : Gen.CnfUtil.cnfEval = CnfUtil.eval := by
        rw [foldl_flag (fun l => l.pol == asg.getD l.var false)]
        · cases cl.any (fun l => l.pol == asg.getD l.var false) <;> simp
        · intro b x; cases hx : (x.pol == asg.getD x.var false) <;> simp [hx])
-  | (by_cases h : asg.length < c.numVars <;> simp [h] <;> grind)
+  | (funext c asg; simp only [Gen.CnfUtil.cnfEval, CnfUtil.eval]
+     by_cases h : asg.length < c.numVars
+     · have h' : ¬ (asg.length ≥ c.numVars) := by omega
+       simp [h, h']
+     · have h' : asg.length ≥ c.numVars := by omega
+       simp only [h, h', decide_true, Bool.not_true, Bool.false_eq_true, if_false]
+       congr 2; funext cl; congr 1; funext l
+       cases l.pol <;> cases asg.getD l.var false <;> rfl)
 
 theorem cnf_is_sat_partial : Gen.CnfUtil.cnfIsSatPartial = CnfUtil.isSatPartial := by
   first
@@ -163,6 +170,35 @@ theorem cnf_is_sat_partial : Gen.CnfUtil.cnfIsSatPartial = CnfUtil.isSatPartial 
        · cases cl.any (fun l => match m.get l.var with | some b => l.pol == b | none => false) <;> simp
        · intro b x; cases hg : m.get x.var <;> simp [hg]
          rename_i v; cases hx : (x.pol == v) <;> simp_all)
+  | (funext c m; simp only [Gen.CnfUtil.cnfIsSatPartial, CnfUtil.isSatPartial]
+     congr 1; funext cl; congr 1; funext l
+     cases hg : m.get l.var with
+     | none => simp
+     | some b => cases l.pol <;> cases b <;> simp)
+
+theorem filterMap_ite {α β : Type} (p : α → Bool) (g : α → β) : ∀ xs : List α,
+    xs.filterMap (fun c => if p c then none else some (g c)) = (xs.filter (fun c => !p c)).map g
+  | [] => rfl
+  | x :: xs => by cases h : p x <;> simp [List.filterMap_cons, List.filter_cons, h, filterMap_ite p g xs]
+
+/-- `condClause` in closed form: the iterator-combinator shape of `Cnf::condition` -/
+theorem condClause_closed (lit : Lit) : ∀ (cl acc : List Lit),
+    condClause lit cl acc = if cl.contains lit then none else some (acc ++ cl.filter (fun l => l.var != lit.var))
+  | [], acc => by simp [condClause]
+  | l :: r, acc => by
+    rcases l with ⟨lv, lp⟩
+    rcases lit with ⟨v, p⟩
+    simp only [condClause, List.contains_cons, condClause_closed ⟨v, p⟩ r]
+    by_cases hv : lv = v
+    · subst hv
+      by_cases hp : lp = p
+      · subst hp; simp
+      · have hne : (Lit.mk lv p == Lit.mk lv lp) = false := by
+          simp [BEq.beq, instBEqLit.beq] <;> intro h <;> exact absurd h.symm hp
+        simp [hp, hne]
+    · have hne : (Lit.mk v p == Lit.mk lv lp) = false := by
+        simp [BEq.beq, instBEqLit.beq] <;> intro h <;> exact absurd h.symm hv
+      simp [hv, hne]
 
 theorem condClause_forStep (lit : Lit) (f : List Lit → Lit → Step (List Lit) Unit)
     (hf : ∀ acc l, f acc l = if l.var == lit.var && l.pol == lit.pol then .ret ()
@@ -196,6 +232,13 @@ theorem cnf_condition : Gen.CnfUtil.cnfCondition = CnfUtil.condition := by
        rw [condClause_forStep lit]
        · cases condClause lit cl [] <;> simp [Step.fin]
        · intro a l; rfl)
+  | (funext c lit; simp only [Gen.CnfUtil.cnfCondition, CnfUtil.condition, condClauses, cnf_new]
+     congr 1
+     have hcc : (fun c => condClause lit c []) =
+         (fun c => if c.contains lit then none else some (c.filter (fun l => l.var != lit.var))) := by
+       funext c; simp [condClause_closed]
+     rw [hcc]
+     exact (filterMap_ite (fun c : List Lit => c.contains lit) (fun c => c.filter (fun l => l.var != lit.var)) c.clauses).symm)
 
 theorem hasher_decide_loop (f : List (List Nat) → Nat → Step (List (List Nat)) (Option CnfHasher))
     (hf : ∀ st i, f st i = match st with | [] => .ret none | top :: below => .go ((top.filter fun j => j != i) :: below)) :
